@@ -4,6 +4,8 @@
      digital_rf_write_rf_data_index (1909-1977), digital_rf_close_write_hdf5 (501-550)
    over abstract files.  HDF5 is abstracted: a data file is {index rows; data slots}.
    A sample is one Z tag (>= 0); the never-written slot of continuous mode is Fill = -1.
+   The disk is: the finalized files (w_files) plus the one open file (w_openf, under its tmp. name);
+   leftovers of crashed sessions are the subject of C02, not of this model.
    The file layout (which file, how many slots left, capacity) comes from the Spec functions
    F_of / file_start, which Properties/C04.v proves equal to the regenerated C code.
    Definitions only -- proofs are in Proofs/WriterProofs.v. *)
@@ -32,17 +34,23 @@ Record afile := mkFile {
 Record wstate := mkW {
   w_gi : Z;                 (* global_index: next writable sample, relative to c_start *)
   w_cur : option Z;         (* sub_directory/basename: F of the file last opened or attempted *)
-  w_open : bool;            (* hdf5_file != 0 *)
+  w_openf : option afile;   (* the open file (hdf5_file != 0), still under its tmp. name *)
   w_di : Z;                 (* dataset_index *)
   w_nia : Z;                (* next_index_avail; 0 also stands for index_dataset == 0 *)
   w_seq : Z;                (* present_seq *)
   w_failed : bool;          (* has_failure *)
-  w_files : list afile
+  w_files : list afile      (* finalized files, in the order they were finalized *)
 }.
 
+Definition w_open (st : wstate) : bool := match w_openf st with Some _ => true | None => false end.
+
 Definition init_state : wstate :=
-  {| w_gi := 0; w_cur := None; w_open := false; w_di := 0; w_nia := 0; w_seq := -1;
+  {| w_gi := 0; w_cur := None; w_openf := None; w_di := 0; w_nia := 0; w_seq := -1;
      w_failed := false; w_files := [] |}.
+
+(* everything on disk: finalized files, then the open tmp. file *)
+Definition all_files (st : wstate) : list afile :=
+  w_files st ++ match w_openf st with Some a => [a] | None => [] end.
 
 (* ---------- list helpers *)
 Definition slice (l : list Z) (a len : Z) : list Z := firstn (Z.to_nat len) (skipn (Z.to_nat a) l).
@@ -50,20 +58,16 @@ Definition slice (l : list Z) (a len : Z) : list Z := firstn (Z.to_nat len) (ski
 Definition overwrite (l : list Z) (a : Z) (new : list Z) : list Z :=
   firstn (Z.to_nat a) l ++ new ++ skipn (Z.to_nat a + length new) l.
 
-Definition is_cur (f : Z) (a : afile) : bool := (f_ms a =? f) && f_tmp a.
-Definition has_final (f : Z) (fs : list afile) : bool := existsb (fun a => (f_ms a =? f) && negb (f_tmp a)) fs.
-Definition has_tmp (f : Z) (fs : list afile) : bool := existsb (is_cur f) fs.
+Definition has_final (f : Z) (fs : list afile) : bool := existsb (fun a => f_ms a =? f) fs.
 
-Definition map_cur (f : Z) (g : afile -> afile) (fs : list afile) : list afile :=
-  map (fun a => if is_cur f a then g a else a) fs.
+Definition set_final (a : afile) : afile := mkFile (f_ms a) false (f_index a) (f_data a) (f_cap a) (f_seq a).
 
-(* digital_rf_close_hdf5_file: rename tmp -> final (or remove it after a failure) *)
+(* digital_rf_close_hdf5_file after the handles are closed: rename tmp -> final
+   (or remove the tmp. file after a failure) *)
 Definition finalize (st : wstate) : list afile :=
-  match w_cur st with
+  match w_openf st with
   | None => w_files st
-  | Some f =>
-    if w_failed st then filter (fun a => negb (is_cur f a)) (w_files st)
-    else map_cur f (fun a => mkFile (f_ms a) false (f_index a) (f_data a) (f_cap a) (f_seq a)) (w_files st)
+  | Some a => if w_failed st then w_files st else w_files st ++ [set_final a]
   end.
 
 Inductive outcome := Wrote (n : Z) | Fail.
@@ -82,44 +86,47 @@ Definition write_samples_to_file (c : cfg) (st : wstate) (sw : Z) (bl : list (Z 
     let nxt := file_start (F + c_fc c) (c_n c) (c_d c) in
     let left := nxt - K in
     let cap := nxt - file_start F (c_n c) (c_d c) in
+    (* the name alone is not enough: it is also set by a refused creation (no file open) *)
     let file_exists := match w_cur st with Some f => (f =? F) && w_open st | None => false end in
     match create_rf_data_index (c_start c) (w_gi st) (c_chunk c) (c_cont c) sw left cap bl vlen next file_exists with
     | None => (Fail, st)
     | Some (rows, stw) =>
-      (* open / create *)
+      (* open / create; inl = failure state, inr = (state, open file) ready for the data write *)
       let r :=
         if negb file_exists then
-          (* close the previous file, if one is open *)
-          let files1 := if w_open st then finalize st else w_files st in
+          (* close the previous file, if one is open; the new name is committed before the checks *)
+          let files1 := finalize st in
           let di1 := if w_open st then 0 else w_di st in
-          let st1 := mkW (w_gi st) (Some F) false di1 (w_nia st) (w_seq st + 1) (w_failed st) files1 in
+          let st1 := mkW (w_gi st) (Some F) None di1 (w_nia st) (w_seq st + 1) (w_failed st) files1 in
           if has_final F files1 then inl st1                     (* refuse: final name exists *)
-          else if has_tmp F files1 then                          (* H5F_ACC_EXCL fails *)
-            inl (mkW (w_gi st) (Some F) false di1 (w_nia st) (w_seq st + 1) true files1)
           else
             let data0 := if c_chunk c then [] else repeat Fill (Z.to_nat cap) in
             let nf := mkFile F true [] data0 cap (w_seq st + 1) in
-            inr (mkW (w_gi st) (Some F) true (if c_chunk c then 0 else cap - left) 0 (w_seq st + 1)
-                     (w_failed st) (files1 ++ [nf]))
-        else if c_chunk c then inr st
-        else inr (mkW next (w_cur st) true (cap - left) (w_nia st) (w_seq st) (w_failed st) (w_files st)) in
+            inr (mkW (w_gi st) (Some F) (Some nf) (if c_chunk c then 0 else cap - left) 0 (w_seq st + 1)
+                     (w_failed st) files1, nf)
+        else
+          match w_openf st with
+          | None => inl st       (* unreachable: file_exists implies an open file *)
+          | Some a =>
+            if c_chunk c then inr (st, a)
+            else inr (mkW next (w_cur st) (w_openf st) (cap - left) (w_nia st) (w_seq st) (w_failed st) (w_files st), a)
+          end in
       match r with
       | inl stf => (Fail, stf)
-      | inr st2 =>
+      | inr (st2, a) =>
         let di := w_di st2 in
         let new := slice vec sw stw in
         let rows' := if w_nia st2 =? 0 then rows else map (fun r => (fst r, snd r + di)) rows in
-        let upd a := mkFile (f_ms a) true (f_index a ++ rows')
-                            (if c_chunk c then f_data a ++ new else overwrite (f_data a) di new)
-                            (f_cap a) (f_seq a) in
-        let files3 := map_cur F upd (w_files st2) in
+        let a' := mkFile (f_ms a) true (f_index a ++ rows')
+                         (if c_chunk c then f_data a ++ new else overwrite (f_data a) di new)
+                         (f_cap a) (f_seq a) in
         let di3 := di + stw in
         let gi3 := match rev rows' with
                    | (g, o) :: _ => (g - c_start c) + (di3 - o)
                    | [] => w_gi st2 + stw
                    end in
-        (Wrote stw, mkW gi3 (w_cur st2) true di3 (w_nia st2 + Z.of_nat (length rows')) (w_seq st2)
-                        (w_failed st2) files3)
+        (Wrote stw, mkW gi3 (w_cur st2) (Some a') di3 (w_nia st2 + Z.of_nat (length rows')) (w_seq st2)
+                        (w_failed st2) (w_files st2))
       end
     end
   end.
@@ -155,7 +162,7 @@ Definition write_one (c : cfg) (st : wstate) (g : Z) (vec : list Z) : Z * wstate
 
 (* digital_rf_close_write_hdf5 *)
 Definition close_writer (st : wstate) : wstate :=
-  mkW (w_gi st) (w_cur st) false 0 (w_nia st) (w_seq st) (w_failed st) (finalize st).
+  mkW (w_gi st) (w_cur st) None 0 (w_nia st) (w_seq st) (w_failed st) (finalize st).
 
 (* ---------- what the files mean: absolute sample index -> tag *)
 Fixpoint rows_lookup (rows : list (Z * Z)) (data : list Z) (k : Z) : option Z :=
